@@ -158,7 +158,29 @@ func (db *Database) DeleteRange(start, end []byte) error {
 	return updateError(db.db.DeleteRange(start, end, pebble.Sync))
 }
 
+// Compact the underlying DB for the given key range. As required by database.Compacter, a nil [start]
+// is treated as a key before all keys and a nil [limit] as a key after all keys.
 func (db *Database) Compact(start []byte, limit []byte) error {
+	if limit == nil {
+		// pebble treats a nil limit as a key before all keys and rejects start >= limit,
+		// so use the greatest key in the database as the limit.
+		it, err := db.db.NewIter(&pebble.IterOptions{})
+		if err != nil {
+			return updateError(err)
+		}
+		if !it.Last() {
+			// The database is empty.
+			return updateError(it.Close())
+		}
+		limit = slices.Clone(it.Key())
+		if err := it.Close(); err != nil {
+			return updateError(err)
+		}
+	}
+	if pebble.DefaultComparer.Compare(start, limit) >= 0 {
+		// pebble requires start < limit: nothing to compact
+		return nil
+	}
 	return updateError(db.db.Compact(start, limit, false))
 }
 
